@@ -114,6 +114,13 @@ class Inliner:
                 cands = [g for g in self.prog.methods_of(caller.cls) if g.name == nm and g.has_cfg and len(g.params) == nargs]
                 if len(cands) == 1:
                     callee = cands[0]
+        if callee is None and n.get("dep") and n.get("this") is None and n.get("name"):
+            # dependent call of a free function template by (qualified) name from inside another template
+            nm = n["name"]
+            nargs = len([a for a in n.get("args", []) if not (isinstance(a, dict) and a.get("k") == "defarg")])
+            cands = [g for g in self.prog.by_qual_suffix(nm) if g.has_cfg and g.is_pattern and g.kind == "function" and len(g.params) == nargs]
+            if len(cands) == 1:
+                callee = cands[0]
         if callee is None or not callee.has_cfg:
             return None
         if not callee.file.startswith("/repo/"):
